@@ -109,6 +109,9 @@ func (d *dynRunner) apply(op *Op) *Resp {
 		prevKind := d.last.Kind
 		r := d.h.Next(arg)
 		settle(d.bubble)
+		if d.h.releaseAuto() {
+			settle(d.bubble)
+		}
 		d.last = r
 		d.nNext++
 		if gStats != nil {
